@@ -36,6 +36,10 @@
 (*         not predicted), placed after `pos` of the clips above (0 =      *)
 (*         first, Len(clips) = last).  They are not evaluated: the         *)
 (*         evaluated clips are those present in both inputs, i.e. `clips`. *)
+(*   perm  sound-event tasks: order of a clip's predictions relative to its *)
+(*         annotations: 0 same order, 1 reversed, 2 rotated by one.  No    *)
+(*         meaning for Req: a prediction belongs to the annotation of the  *)
+(*         SAME sound event (classification) / overlapping one (detection)*)
 (*   style how the binder spells the tags (no meaning for Req: an item's   *)
 (*         class is the index of the vocabulary tag its tag EQUALS, and    *)
 (*         only scores of tags equal to a vocabulary tag count):           *)
